@@ -25,6 +25,11 @@ pub struct HistCfg {
     pub sdk: bool,
 }
 
+thread_local! {
+    /// forces the next world to start near the maximum price with a narrow spacing (C20 overflow corner)
+    pub static FORCE_HIGH: std::cell::Cell<bool> = std::cell::Cell::new(false);
+}
+
 fn log_uniform(w: &mut World, lo_bits: u32, hi_bits: u32) -> u128 {
     let b = w.rng.gen_range(lo_bits..=hi_bits);
     let base = 1u128 << b;
@@ -54,7 +59,8 @@ pub fn build_world(seed: u64, tokens: &str, rewards: bool, adaptive: bool, rec: 
     for u in ["U1", "U2", "U3"] {
         w.add_user(u);
     }
-    let spacing = pick(&mut w, &[1u16, 8, 64, 64, 128, 32896]);
+    let force_high = FORCE_HIGH.with(|c| c.get());
+    let spacing = if force_high { 1u16 } else { pick(&mut w, &[1u16, 8, 64, 64, 128, 32896]) };
     let full_range_only = spacing >= 32768;
     let fee_rate = pick(&mut w, &[0u16, 1, 100, 3000, 3000, 10000, 60000]);
     let ix = w.ix_init_fee_tier("C1", spacing, fee_rate);
@@ -86,8 +92,9 @@ pub fn build_world(seed: u64, tokens: &str, rewards: bool, adaptive: bool, rec: 
     let t0: i32 = if full_range_only {
         w.rng.gen_range(-200000..200000)
     } else {
-        match w.rng.gen_range(0..10) {
+        match if force_high { 1 } else { w.rng.gen_range(0..10) } {
             0 => w.rng.gen_range(MIN_TICK + 1..MIN_TICK + 3 * span.min(20000)),
+            1 if force_high => w.rng.gen_range(384_000..393_000),
             1 => w.rng.gen_range(MAX_TICK - 3 * span.min(20000)..MAX_TICK - 1),
             _ => w.rng.gen_range(-30000..30000),
         }
@@ -545,13 +552,64 @@ pub fn drain(w: &World, rec: &mut Recorder) {
     }
 }
 
+/// The corner where liquidity * sqrt_price reaches 2^192 (C20): near the maximum price a one-spacing-wide
+/// position just above the current tick holds a huge liquidity for a modest amount of token A; a small
+/// B->A swap moves the price into it, then tiny exact-in A->B swaps need the next-price-from-A formula,
+/// which the program refuses with MultiplicationOverflow.
+fn whale_corner(w: &mut World, sc: &Scenario, rec: &mut Recorder) {
+    let pool = sc.pool.clone();
+    let s = w.pools[&pool].spacing as i32;
+    let t = w.pool_tick(&pool);
+    let lo = (t.div_euclid(s) + 1) * s;
+    let up = lo + s;
+    if up > (MAX_TICK / s) * s {
+        return;
+    }
+    let (pl, pu) = (price_of(lo), price_of(up));
+    // L * price >= 2^192 with room; token A needed ~ L * 2^64 * (pu - pl) / (pu * pl) must fit the balance
+    let l = (2f64.powi(192) * 1.5 / (pl as f64)) as u128;
+    if (l as f64) * 2f64.powi(64) * ((pu - pl) as f64) / ((pu as f64) * (pl as f64)) > 2f64.powi(59) {
+        return;
+    }
+    for tt in [lo, up] {
+        let start = w.ta_start(&pool, tt);
+        if !w.ta_exists(&pool, start) {
+            let dynamic = w.pools[&pool].dynamic;
+            let ix = w.ix_init_tick_array(&pool, start, dynamic);
+            rec.exec(w, &ix, true, json!("setup"));
+        }
+    }
+    let (ix, info) = w.ix_open_position(&pool, "U1", lo, up, PosKind::Plain);
+    if !rec.exec(w, &ix, true, json!("corner")).ok() {
+        return;
+    }
+    let name = info.name.clone();
+    w.positions.insert(info.name.clone(), info);
+    let v2 = sc.v2_only;
+    let ix = w.ix_increase(&name, "U1", l, u64::MAX, u64::MAX, v2);
+    rec.exec(w, &ix, false, json!("corner"));
+    // enough B that getting back to the lower tick takes more than three units of A
+    let amt = ((pl as f64) * (pl as f64) / 2f64.powi(128) * w.rng.gen_range(4.0..6.0)) as u64;
+    let ix = w.ix_swap(&pool, "U2", amt, 0, MAX_SQRT_PRICE, true, false, v2);
+    rec.exec(w, &ix, false, json!("corner"));
+    for (a, exact_in) in [(1u64, true), (2, true), (3, true), (1, false), (1u64 << 20, true)] {
+        let thr = if exact_in { 0 } else { u64::MAX };
+        let ix = w.ix_swap(&pool, "U3", a, thr, MIN_SQRT_PRICE, exact_in, true, v2);
+        rec.exec(w, &ix, false, json!("corner"));
+    }
+}
+
 pub fn run(cfg: &HistCfg, rec: &mut Recorder) {
     rec.crosscheck_every = cfg.crosscheck_every;
     rec.dual = cfg.dual;
     rec.sdk = cfg.sdk;
     for h in 0..cfg.histories {
         let seed = cfg.seed.wrapping_mul(1_000_003).wrapping_add(h as u64);
+        FORCE_HIGH.with(|c| c.set(cfg.sdk && h % 4 == 1));
         let (mut w, sc) = build_world(seed, &cfg.tokens, cfg.rewards, cfg.adaptive, rec);
+        if FORCE_HIGH.with(|c| c.replace(false)) {
+            whale_corner(&mut w, &sc, rec);
+        }
         for s in 0..cfg.steps {
             random_step(&mut w, &sc, rec);
             if cfg.drain && (s + 1) % 50 == 0 {
